@@ -255,7 +255,7 @@ class StoreRun:
             # sees an IOError (the runner swallows it) and the dictionary is unchanged
             from .faultfs import FaultFS
 
-            _, ki, cls = op
+            _, ki, cls = op[:3]
             if self.kind != "fs":
                 return None
             sym, arg = self.keys[ki]
@@ -265,7 +265,8 @@ class StoreRun:
             mem = storeh.mk_memento(sym, arg, val, self.tick)
             mem.correlation_id = "cid_%06d" % self.tick
             fs = FaultFS([self.root])
-            fs.match = ("open-w", os.path.join("c", ".versions"), "err_write")
+            # the data object (default), or - "meta" - the memento object written after it
+            fs.match = ("open-w", ".memento.json" if len(op) > 3 and op[3] == "meta" else os.path.join("c", ".versions"), "err_write")
             fs.install()
             try:
                 try:
@@ -394,6 +395,8 @@ class StoreRun:
         vdir = os.path.join(cdir, ".versions")
         if os.path.isdir(vdir):
             for u in sorted(os.listdir(vdir)):
+                if not os.path.isdir(os.path.join(vdir, u)):
+                    continue  # (a stray file next to the version directories is not an object)
                 for name in sorted(os.listdir(os.path.join(vdir, u))):
                     if ".meta." in name:
                         continue
@@ -623,6 +626,7 @@ def alphabet(profile, keys, classes, small=False):
             ops.append(("memo", 0, "P", OVK))
             ops.append(("memo_fault", 0, "D"))
             ops.append(("memo_fault", k2, "s"))
+            ops.append(("memo_fault", k2, "D", "meta"))  # the data object is written (or re-used), then the memento write fails
             # the same two override writes by calls whose bodies seed the process-wide PRNG before returning
             ops.append(("memo", 0, "s", OVK, "seeded"))
             ops.append(("memo", k2, "t", OVK, "seeded"))
@@ -664,7 +668,7 @@ def signature(cfg, op, clause, hist):
     if o == "memo":
         o += ":" + op[2] + ("+override" if op[3] else "")
     if o == "memo_fault":
-        o += ":" + op[2]
+        o += ":" + op[2] + ("+meta" if len(op) > 3 else "")
     prev = "init"
     if hist:
         prev = hist[-1][0] + ((":" + str(hist[-1][2]) + ("+override" if hist[-1][3] else "")) if hist[-1][0] == "memo" else "")
